@@ -143,6 +143,8 @@ def kwargs_for(rec):
     dts = {vid: dt for vid, dt, role in rec['vars']}
     for vid, code in rec['perfill']:
         kw[VAR_NAME[vid]] = decode(code, dts[vid])
+        if dts[vid] == 'b' and kw[VAR_NAME[vid]] is True and (vid + len(rec['perfill']) + len(rec['vars'])) % 2:
+            kw[VAR_NAME[vid]] = 0.5       # another spelling of a true fill for a boolean series (NumPy: bool(0.5) is True)
     if a['unknown']:
         kw['ZZ'] = 1
     return kw
